@@ -587,6 +587,21 @@ impl ZmtpEngine {
         .get("Identity")
         .map(|v| Blob::from(v.clone()));
 
+      // The READY metadata announces the peer's socket type: refuse pairings that are not valid
+      // ZeroMQ patterns, exactly as the ZMTP/2.0 greeting path does.
+      if let Some(ref peer_type) = peer_socket_type {
+        if !socket_types_compatible(self.config.socket_type_name.as_str(), peer_type.as_str()) {
+          self.fail(
+            out,
+            ZmqError::ProtocolViolation(format!(
+              "Incompatible sockets: local {} <-> peer {}",
+              self.config.socket_type_name, peer_type
+            )),
+          );
+          return;
+        }
+      }
+
       if self.is_server {
         // Server received client READY → send server READY then complete.
         self.emit_local_ready(out);
@@ -872,6 +887,34 @@ impl ZmtpEngine {
 }
 
 // --- Module-level helpers ---
+
+/// ZeroMQ socket pairing table (RFC 23/28), by wire name.
+fn socket_types_compatible(own: &str, peer: &str) -> bool {
+  matches!(
+    (own, peer),
+    ("PULL", "PUSH")
+      | ("PUSH", "PULL")
+      | ("PUB", "SUB")
+      | ("SUB", "PUB")
+      | ("PUB", "XSUB")
+      | ("XSUB", "PUB")
+      | ("XPUB", "SUB")
+      | ("SUB", "XPUB")
+      | ("XPUB", "XSUB")
+      | ("XSUB", "XPUB")
+      | ("REQ", "REP")
+      | ("REP", "REQ")
+      | ("REQ", "ROUTER")
+      | ("ROUTER", "REQ")
+      | ("REP", "DEALER")
+      | ("DEALER", "REP")
+      | ("DEALER", "ROUTER")
+      | ("ROUTER", "DEALER")
+      | ("DEALER", "DEALER")
+      | ("ROUTER", "ROUTER")
+      | ("PAIR", "PAIR")
+  )
+}
 
 fn local_mechanism_name_bytes(config: &ZmtpEngineConfig) -> &'static [u8; MECHANISM_LENGTH] {
   #[cfg(feature = "plain")]
